@@ -66,13 +66,14 @@ def check_deriv(f, t, y, lam):
 
 
 def pair_worker(job):
-    cfg, lam, kind = job
-    res = {"cfg": cfg, "lam": lam, "kind": kind}
+    cfg, lam, kind = job[:3]
+    tight = job[3] if len(job) > 3 else True
+    res = {"cfg": cfg, "lam": lam, "kind": kind, "tight": tight}
     try:
         cls = evolve_mf.EvolvedMFWithBH if kind == "fbh" else evolve_mf.EvolvedMF
         # integrator tolerance tightened from outside (scipy's ode wrapped): at the default 1e-5 the solver's own error on the
         # remnant bins (right-hand side jumps whenever the deposit bin changes) is percent-level and not scale-free
-        with real.recording_ode(rtol=1e-10, atol=1e-10, nsteps=10**7):
+        with real.recording_ode(**(dict(rtol=1e-10, atol=1e-10, nsteps=10**7) if tight else {})):
             a = gen.build(cfg, cls=cls)
             cfg2 = dict(cfg); cfg2["N0"] = cfg["N0"] * lam; cfg2["esc_rate"] = cfg["esc_rate"] * lam
             b = gen.build(cfg2, cls=cls)
@@ -105,7 +106,13 @@ def check_pair(res):
         bad = np.abs(b / lam - a) > 1e-4 * np.maximum(np.abs(a), tot * 1e-3) + thr
         if np.any(bad):
             i = tuple(int(x) for x in np.argwhere(bad)[0])
-            return {"clause": f"{nm} scales with the population size", "index": i, "observed": repr(float(b[i] / lam)), "expected": repr(float(a[i]))}
+            out = {"clause": f"{nm} scales with the population size", "index": i, "observed": repr(float(b[i] / lam)), "expected": repr(float(a[i]))}
+            if not res.get("tight", True):
+                # at the code's own integrator tolerance: how far off, relative to the bin (for the known-finding classifier)
+                dev = (np.abs(b / lam - a) - thr) / np.maximum(np.abs(a), tot * 1e-3)
+                out["default_tolerance"] = True
+                out["rel_dev"] = float(np.max(dev))
+            return out
     a, b = np.array(res["alpha"][0]), np.array(res["alpha"][1])
     if np.any(np.abs(a - b) > 5e-3):
         return {"clause": "slopes unchanged by the population size"}
@@ -190,11 +197,14 @@ def sweep(ctx):
             if len(cfg["tout"]) == 1:
                 cfg["kw"]["f_BH"] = cfg["kw"]["f_BH"][0]
         jobs.append((cfg, loguniform(ctx.rng, 0.3, 30), kind))
+    # a third of the pairs also at the code's own integrator tolerance (scale-dependent there: known finding)
+    jobs += [(c, l, k, False) for (c, l, k) in jobs[::3]]
     for res in gen.pmap(pair_worker, jobs):
         bad = check_pair(res)
         ctx.sweep_case("pairs", (repr(res["cfg"]), res["lam"]), bad in (None, "skip"),
-                       {"failing_input": {"call": "pair", "args": {"cfg": res["cfg"], "lam": res["lam"], "kind": res["kind"]}}, "observed": bad},
-                       branch="skipped" if bad == "skip" else res["kind"])
+                       {"failing_input": {"call": "pair", "args": {"cfg": res["cfg"], "lam": res["lam"], "kind": res["kind"], "tight": res["tight"]}},
+                        "observed": bad},
+                       branch="skipped" if bad == "skip" else res["kind"] + ("" if res["tight"] else "/default-tolerance"))
     for _ in range(ctx.n(6, 60) * eff):
         cfg = gen.gen_config(ctx.rng, small=True)
         for which in ("own_N0", "from_powerlaw"):
@@ -212,7 +222,7 @@ def replay(ctx, fi):
         f._esc_norm, f.md, f.esc_rate, f.tcc, f._time_dep_esc = a["norm"], a["md"], a["rate"], a["tcc"], False
         r = check_deriv(f, unjf(a["t"]), np.array([unjf(x) for x in a["y"]]), unjf(a["lam"]))
     elif fi["call"] == "pair":
-        r = check_pair(pair_worker((a["cfg"], a["lam"], a["kind"])))
+        r = check_pair(pair_worker((a["cfg"], a["lam"], a["kind"], a.get("tight", True))))
     elif fi["call"] == "identity":
         r = check_identity(a["cfg"], a["which"], a.get("model", "EvolvedMF"))
     else:
@@ -221,4 +231,9 @@ def replay(ctx, fi):
 
 
 def classify(entry, failure):
-    return False
+    """C18-default-tolerance-not-scale-free: at rtol=atol=1e-5 the solver's error on sparsely populated remnant bins is percent-level and
+    depends on N0 through the absolute tolerance; listed when the deviation is at the code's own tolerance and within 20 % of the bin"""
+    if entry.get("classifier") != "default_tolerance_scale":
+        return False
+    obs = failure.get("observed") or {}
+    return bool(obs.get("default_tolerance")) and obs.get("rel_dev") is not None and obs["rel_dev"] <= 0.2
